@@ -125,6 +125,18 @@ def direct_full(x, w):
     return np.convolve(np.asarray(x, dtype=np.int64), np.asarray(w, dtype=np.int64))
 
 
+def direct_rows(xb, wb):
+    """direct convolution of each row pair; unit-impulse rows are done by placement (exact, vectorised)"""
+    rows, nsx = xb.shape
+    nsw = wb.shape[1]
+    if rows > 4 and np.all((xb == 0) | (xb == 1)) and np.all(xb.sum(axis=1) == 1):
+        out = np.zeros((rows, nsx + nsw - 1), dtype=np.int64)
+        pos = np.argmax(xb, axis=1)
+        out[np.arange(rows)[:, None], pos[:, None] + np.arange(nsw)[None, :]] = wb
+        return out
+    return np.stack([direct_full(xb[i], wb[i]) for i in range(rows)])
+
+
 def conv_check(ctx, cs, x, w, tag, model=True):
     """x: int array (..., nsx); w: int array (..., nsw) broadcastable on the leading axes."""
     f = F()
@@ -155,8 +167,9 @@ def conv_check(ctx, cs, x, w, tag, model=True):
             return
         res[mode] = r
     first = (nsw - 1) // 2
+    direct = direct_rows(xb, wb)
     for i in range(xb.shape[0]):
-        full = direct_full(xb[i], wb[i])
+        full = direct[i]
         if not (np.array_equal(res["full"][i, :-1], full) and res["full"][i, -1] == 0):
             ctx.fail("convolve 'full' differs from direct convolution (row %d)" % i, d,
                      dict(tags, kind="values", mode="full"))
